@@ -1,5 +1,7 @@
-//@@ unit props=C01,C06,C15,C17
-// Unit a1: A1 cell-name decoding of xlsx (src/xlsx/mod.rs), verbatim text.
+//@@ unit props=C01,C15,C17
+// Unit a1small: the A1 decoder of unit a1, extracted a second time under the hypothesis that the cell name is small
+// (<= 9 digits, <= 6 letters).  Every implicit obligation must be discharged here (no registered findings apply), so the
+// functional clauses of unit a1 do not rest on the overflow findings of the unconditional copy.
 #![allow(unused_imports, dead_code, unused_variables, unused_mut, unused_assignments)]
 use vstd::prelude::*;
 
@@ -177,8 +179,10 @@ pub open spec fn a1_value(s: Seq<u8>, nl: int) -> (u32, Option<u32>) {
 /// shape within the range where u32 arithmetic cannot overflow: <= 9 digits, <= 6 letters
 pub open spec fn a1_small(s: Seq<u8>, nl: int) -> bool { a1_shape(s, nl) && s.len() - nl <= 9 && nl <= 6 }
 
-//@@ fn src/xlsx/mod.rs get_row_and_optional_column props=C01,C15,C17 entry ret=r
+//@@ fn src/xlsx/mod.rs get_row_and_optional_column props=C01,C15,C17 alias=small ret=r
 //@@ sig
+    requires
+        exists|nl: int| a1_small(range@, nl),
     ensures
         //# C01,C15,C17.a1_decode
         forall|nl: int| #[trigger] a1_small(range@, nl) && dec10(range@.subrange(nl, range@.len() as int)) >= 1 ==>
@@ -191,6 +195,8 @@ pub open spec fn a1_small(s: Seq<u8>, nl: int) -> bool { a1_shape(s, nl) && s.le
     let ghost mut nd: int = 0;
     let ghost s = range@;
     let ghost n = range@.len() as int;
+    let ghost nl0 = choose|nl: int| a1_small(range@, nl);
+    proof { lemma_pow10_vals(); lemma_pow26_vals(); }
     proof { assert(tail(s, 0) =~= Seq::<u8>::empty()); assert(mid(s, 0, 0) =~= Seq::<u8>::empty()); }
 //@@ loop 0 it
         invariant
@@ -198,6 +204,10 @@ pub open spec fn a1_small(s: Seq<u8>, nl: int) -> bool { a1_shape(s, nl) && s.le
             it.seq().len() == n,
             forall|i: int| 0 <= i < n ==> *(#[trigger] it.seq()[i]) == s[n - 1 - i],
             0 <= nd <= it.index@ <= n,
+            a1_small(s, nl0),
+            nd <= n - nl0,
+            !readrow ==> n - nd == nl0,
+            row < pow10(nd as nat),
             readrow ==> nd == it.index@,
             !readrow ==> nd < it.index@,
             all_digits(tail(s, nd)),
@@ -221,6 +231,12 @@ pub open spec fn a1_small(s: Seq<u8>, nl: int) -> bool { a1_shape(s, nl) && s.le
             }
 //@@ before /row \+= /
                     proof {
+                        // this digit lies in the digit part of the (unique) split: at most 9 digits in all
+                        assert(n - 1 - k >= nl0) by { if n - 1 - k < nl0 { assert(is_letter(s.subrange(0, nl0)[n - 1 - k])); } }
+                        assert(nd + 1 <= 9);
+                        lemma_pow_mono(nd as nat, 8); lemma_pow10_vals();
+                        assert(pow10((nd + 1) as nat) == 10 * pow10(nd as nat));
+                        assert(((c - 0x30) as nat) * pow10(nd as nat) <= 9 * pow10(nd as nat)) by (nonlinear_arith) requires (c - 0x30) as nat <= 9;
                         lemma_dec10_prepend(c, tail(s, k));
                         lemma_dec10_bound(tail(s, k));
                         assert(all_digits(tail(s, k + 1))) by {
@@ -233,6 +249,15 @@ pub open spec fn a1_small(s: Seq<u8>, nl: int) -> bool { a1_shape(s, nl) && s.le
                     proof { nd = nd + 1; assert(mid(s, k + 1, nd) =~= Seq::<u8>::empty()); }
 //@@ before /col \+= /#0of2
                 proof {
+                    // at most 6 letters: this letter and those seen so far all lie left of the split
+                    assert(n - nd == nl0);
+                    assert(k - nd + 1 <= nl0 <= 6);
+                    lemma_pow_mono((k - nd) as nat, 5); lemma_pow26_vals();
+                    assert(pow26((k - nd + 1) as nat) == 26 * pow26((k - nd) as nat));
+                    if nd < k { lemma_b26_bound(mid(s, k, nd)); }
+                    assert(letter_val(c) * pow26((k - nd) as nat) <= 26 * pow26((k - nd) as nat)) by (nonlinear_arith) requires letter_val(c) <= 26;
+                }
+                proof {
                     if nd == k { assert(mid(s, k, nd) =~= Seq::<u8>::empty()); }
                     lemma_b26_prepend(c, mid(s, k, nd));
                     assert(all_letters(mid(s, k + 1, nd))) by {
@@ -242,6 +267,15 @@ pub open spec fn a1_small(s: Seq<u8>, nl: int) -> bool { a1_shape(s, nl) && s.le
                     }
                 }
 //@@ before /col \+= /#1of2
+                proof {
+                    // at most 6 letters: this letter and those seen so far all lie left of the split
+                    assert(n - nd == nl0);
+                    assert(k - nd + 1 <= nl0 <= 6);
+                    lemma_pow_mono((k - nd) as nat, 5); lemma_pow26_vals();
+                    assert(pow26((k - nd + 1) as nat) == 26 * pow26((k - nd) as nat));
+                    if nd < k { lemma_b26_bound(mid(s, k, nd)); }
+                    assert(letter_val(c) * pow26((k - nd) as nat) <= 26 * pow26((k - nd) as nat)) by (nonlinear_arith) requires letter_val(c) <= 26;
+                }
                 proof {
                     if nd == k { assert(mid(s, k, nd) =~= Seq::<u8>::empty()); }
                     lemma_b26_prepend(c, mid(s, k, nd));
@@ -258,6 +292,8 @@ pub open spec fn a1_small(s: Seq<u8>, nl: int) -> bool { a1_shape(s, nl) && s.le
                             if nl > n - k { assert(is_letter(s.subrange(0, nl)[n - k])); assert(is_digit(tail(s, k)[0])); }
                         }
                         assert(tail(s, k) =~= s.subrange(n - k, n));
+                        assert(a1_shape(s, nl0));
+                        assert(nl0 == n - k);
                     }
 //@@ after /if readrow \{/#2of3
                     proof {
@@ -266,6 +302,8 @@ pub open spec fn a1_small(s: Seq<u8>, nl: int) -> bool { a1_shape(s, nl) && s.le
                             if nl > n - k { assert(is_letter(s.subrange(0, nl)[n - k])); assert(is_digit(tail(s, k)[0])); }
                         }
                         assert(tail(s, k) =~= s.subrange(n - k, n));
+                        assert(a1_shape(s, nl0));
+                        assert(nl0 == n - k);
                     }
 //@@ before /let row = row/
     proof {
@@ -282,127 +320,16 @@ pub open spec fn a1_small(s: Seq<u8>, nl: int) -> bool { a1_shape(s, nl) && s.le
 //@@ end
 
 
-//@@ fn src/xlsx/mod.rs get_row_column props=C01,C15,C17 entry ret=r
-//@@ sig
-    ensures
-        //# C01,C15,C17.a1_cell_decode
-        forall|nl: int| #[trigger] a1_small(range@, nl) && nl >= 1 && dec10(range@.subrange(nl, range@.len() as int)) >= 1 ==>
-            r == Ok::<(u32, u32), XlsxError>((a1_value(range@, nl).0, (b26(range@.subrange(0, nl)) - 1) as u32)),
-        //# C01,C15,C17.a1_cell_needs_column
-        forall|nl: int| #[trigger] a1_small(range@, nl) && nl == 0 ==> r is Err,
-        //# C01,C15,C17.a1_cell_malformed_rejected
-        (forall|nl: int| !#[trigger] a1_shape(range@, nl)) ==> r is Err,
-//@@ end
-
-// ---------------------------------------------------------------- column_number_to_name (C15: inverse of the A1 decoder)
-/// value of a letter string written least-significant letter first
-pub open spec fn b26_rev(s: Seq<u8>) -> nat
-    decreases s.len()
+/// vacuity guard: the hypothesis of the small-input copy is satisfiable ("A1")
+proof fn witness_a1_small()
+    ensures exists|nl: int| a1_small(seq![0x41u8, 0x31u8], nl),
 {
-    if s.len() == 0 { 0 } else { b26_rev(s.drop_last()) + letter_val(s.last()) * pow26((s.len() - 1) as nat) }
+    let s = seq![0x41u8, 0x31u8];
+    assert(s.subrange(0, 1) =~= seq![0x41u8]);
+    assert(s.subrange(1, 2) =~= seq![0x31u8]);
+    assert(all_letters(s.subrange(0, 1)));
+    assert(all_digits(s.subrange(1, 2)));
+    assert(a1_small(s, 1));
 }
-
-proof fn lemma_b26_reverse(s: Seq<u8>)
-    requires all_letters(s),
-    ensures b26(s.reverse()) == b26_rev(s),
-    decreases s.len(),
-{
-    if s.len() == 0 {
-        assert(s.reverse() =~= Seq::<u8>::empty());
-    } else {
-        let t = s.drop_last();
-        assert(s.reverse() =~= seq![s.last()] + t.reverse());
-        assert forall|i: int| 0 <= i < t.len() implies is_letter(#[trigger] t[i]) by { assert(t[i] == s[i]); }
-        lemma_b26_reverse(t);
-        assert(is_letter(s[s.len() - 1]));
-        lemma_b26_prepend(s.last(), t.reverse());
-        assert(t.reverse().len() == s.len() - 1);
-    }
-}
-
-// TRUSTED: documented behaviour of <[T]>::reverse (reverses the order of elements in place)
-pub assume_specification<T>[ <[T]>::reverse ](s: &mut [T])
-    ensures final(s)@ == old(s)@.reverse();
-
-pub open spec fn all_upper(s: Seq<u8>) -> bool { forall|i: int| 0 <= i < s.len() ==> is_upper(#[trigger] s[i]) }
-
-//@@ fn src/xlsx/mod.rs column_number_to_name props=C15,C14 ret=r
-//@@ sig
-    ensures
-        //# C15.colname_range
-        num >= 16384 ==> r is Err,
-        //# C15.colname_bijective_base26
-        num < 16384 ==> r is Ok && all_upper(r->Ok_0@) && b26(r->Ok_0@) == num + 1 && 1 <= r->Ok_0@.len() <= 3,
-//@@ before /while num > 0/
-    let ghost n0 = num as nat;
-    proof { lemma_pow26_vals(); }
-//@@ loop 0
-        invariant
-            n0 == num * pow26(col@.len()) + b26_rev(col@),
-            all_upper(col@),
-            1 <= n0 <= 16384,
-            col@.len() <= 3,
-            col@.len() == 3 ==> num == 0,
-            num >= 1 ==> pow26(col@.len()) <= n0,
-        decreases num,
-//@@ before /let integer/
-        let ghost c0 = col@;
-//@@ after /col\.push\(integer\);/
-        proof {
-            assert(col@.drop_last() =~= c0);
-            assert(n0 == num * pow26(c0.len()) + b26_rev(c0));
-            assert(col@.last() == integer);
-            assert(is_upper(integer));
-            assert(letter_val(integer) == ((num - 1) % 26 + 1) as nat);
-            assert(b26_rev(col@) == b26_rev(c0) + letter_val(integer) * pow26(c0.len()));
-            assert(pow26(col@.len()) == 26 * pow26(c0.len()));
-            let ghost p = pow26(c0.len());
-            let ghost q = ((num - 1) / 26) as nat;
-            let ghost d = ((num - 1) % 26 + 1) as nat;
-            assert(num as nat == 26 * q + d);
-            assert(num * p == q * (26 * p) + d * p) by (nonlinear_arith) requires num as nat == 26 * q + d;
-            lemma_pow26_vals();
-            lemma_pow_mono(c0.len(), 3);
-            assert(q >= 1 ==> 26 * p <= n0) by (nonlinear_arith) requires n0 >= (26 * q + d) * p, d >= 1, p >= 1;
-            if c0.len() == 2 && q >= 1 { assert(26 * p == 17576); assert(false); }
-        }
-//@@ before /col\.reverse\(\);/
-    proof {
-        assert forall|i: int| 0 <= i < col@.len() implies is_letter(#[trigger] col@[i]) by { assert(is_upper(col@[i])); }
-        lemma_b26_reverse(col@);
-        assert(col@.len() >= 1) by { if col@.len() == 0 { assert(b26_rev(col@) == 0); } }
-    }
-//@@ after /col\.reverse\(\);/
-    proof {
-        assert forall|i: int| 0 <= i < col@.len() implies is_upper(#[trigger] col@[i]) by { }
-    }
-//@@ end
-
-//@@ props C15
-/// encode-then-decode: the name `letters ++ digits` produced for (row, col) decodes back to (row, col)
-proof fn lemma_a1_roundtrip(v: Seq<u8>, d: Seq<u8>)
-    requires all_upper(v), 1 <= v.len() <= 3, all_digits(d), 1 <= d.len() <= 7, dec10(d) >= 1,
-    ensures
-        a1_small(v + d, v.len() as int),
-        a1_value(v + d, v.len() as int) == ((dec10(d) - 1) as u32, Some((b26(v) - 1) as u32)),
-{
-    let s = v + d;
-    assert(s.subrange(0, v.len() as int) =~= v);
-    assert(s.subrange(v.len() as int, s.len() as int) =~= d);
-    assert forall|i: int| 0 <= i < v.len() implies is_letter(#[trigger] v[i]) by { assert(is_upper(v[i])); }
-}
-
-//@@ fn src/xlsx/mod.rs get_row props=C01 entry ret=r
-//@@ sig
-    ensures
-        //# C01.a1_row_decode
-        forall|nl: int| #[trigger] a1_small(range@, nl) && dec10(range@.subrange(nl, range@.len() as int)) >= 1 ==>
-            r == Ok::<u32, XlsxError>(a1_value(range@, nl).0),
-        //# C01.a1_row_malformed_rejected
-        (forall|nl: int| !#[trigger] a1_shape(range@, nl)) ==> r is Err,
-//@@ closure 0
-    -> (res: u32) ensures res == __c0_0.0
-//@@ end
-
 } // verus!
 fn main() {}
